@@ -72,7 +72,7 @@ PROPS["C03"] = dict(
 )
 PROPS["C04"] = dict(
     module="Panacea.Properties.C04",
-    obligations=["Panacea.C04.wf_empty", "Panacea.C04.wf_reachable", "Panacea.C04.seq_create_zero", "Panacea.C04.seq_advances",
+    obligations=["Panacea.C04.wf_empty", "Panacea.C04.wf_reachable", "Panacea.C04.seq_create_zero", "Panacea.C04.seq_advances", "Panacea.C04.seq_advances_total",
                  "Panacea.C04.seq_changes_only_by_acceptance", "Panacea.C04.seq_monotone", "Panacea.C04.read_seq_is_next",
                  "Panacea.C04.update_replay_reduction", "Panacea.C04.update_replay_rejected",
                  "Panacea.C04.deactivate_replay_rejected", "Panacea.C04.create_replay_rejected",
@@ -83,7 +83,8 @@ PROPS["C04"] = dict(
 PROPS["C05"] = dict(
     module="Panacea.Properties.C05",
     obligations=["Panacea.C05.genesis_seq_bound", "Panacea.C05.genesis_deactivate_makes_tombstone", "Panacea.C05.create_existing_fails_noop", "Panacea.C05.deactivate_makes_tombstone",
-                 "Panacea.C05.tombstone_forever", "Panacea.C05.update_never_deactivates"],
+                 "Panacea.C05.tombstone_forever", "Panacea.C05.update_never_deactivates",
+                 "Panacea.C05.deactivate_makes_tombstone_total", "Panacea.C05.exhausted_refused"],
     streams=DID_STREAM + [dict(name="genesis", quick=25, thorough=400, thorough_seeds=2)], trusted=DID_TRUSTED, assumptions=DID_ASSUME,
     note="export/import and restart preservation of tombstones: C08 / C10",
 )
